@@ -109,10 +109,13 @@ Definition static_impl_receiver (s : sig) : sig :=
   | _ => s
   end.
 
+Definition receiver_lifetime (s : sig) : option string :=
+  match p_items (s_inputs s) with ArgRecv _ r _ _ :: _ => ref_lifetime r | _ => None end.
+
 Definition dynamic_impl_receiver (s : sig) : sig :=
   if first_is_receiver s then
     mkSig (s_const s) (s_async s) (s_unsafe s) (s_abi s) (s_name s) (s_gen s)
-          (p_insert 1 impl_receiver (s_inputs s)) (s_variadic s) (s_output s)
+          (p_insert 1 (impl_receiver_lt (receiver_lifetime s)) (s_inputs s)) (s_variadic s) (s_output s)
   else s.
 
 Definition map_sig (f : sig -> sig) (tf : trait_fn) : trait_fn :=
@@ -151,7 +154,7 @@ Definition delegation_trait_defs (a : trait_attr) (v : vis) (tg : trait_generics
   end.
 
 (** [gen_delegation_method] + [DelegatingMethod::to_tokens] *)
-Definition delegation_call (a : trait_attr) (contains_async : bool) (name : string) (args : list toks) : toks :=
+Definition delegation_call (a : trait_attr) (contains_async by_value : bool) (name : string) (args : list toks) : toks :=
   let arglist := join [comma] args in
   let plus_sync := if contains_async then [pc "+"] ++ core_marker "Sync" else [] in
   let via (core_path : list string) (method : string) (impl_trait : string) :=
@@ -170,7 +173,8 @@ Definition delegation_call (a : trait_attr) (contains_async : bool) (name : stri
   | None, Some (ByRef RBorrow) =>
       [TId "self"; pc "."; TId "as_ref"; TG Paren []; pc "."; TId "borrow"; TG Paren []; pc "."; TId name; TG Paren arglist]
   | _, _ =>
-      [TId "self"; pc "."; TId "as_ref"; TG Paren []; pc "."; TId name; TG Paren arglist]
+      (* a method that takes [self] by value cannot be forwarded through a shared reference *)
+      [TId "self"; pc "."; TId (if by_value then "into_inner" else "as_ref"); TG Paren []; pc "."; TId name; TG Paren arglist]
   end.
 
 Fixpoint trait_call_args (l : list fnarg) : result (list toks) :=
@@ -185,7 +189,7 @@ Definition delegation_method (a : trait_attr) (contains_async : bool) (tf : trai
   let s := tf_sig tf in
   let* args := trait_call_args (p_items (s_inputs s)) in
   Ok (IIFn (tf_attrs tf) [] s
-        [TG Brace (delegation_call a contains_async (s_name s) args ++
+        [TG Brace (delegation_call a contains_async (plain_self_by_value s) (s_name s) args ++
                    (if tf_async tf then [pc "."; TId "await"] else []))]).
 
 (** [ImplWhereClause::push_impl_t_bounds] *)
